@@ -758,6 +758,15 @@ def main(outdir, status_path=None):
             STATUS.setdefault("generator_errors", {})[fname] = f"{type(ex).__name__}: {ex}"
             continue
         changed[fname] = write_if_changed(os.path.join(outdir, fname), text)
+    try:
+        import code_profiles
+        import pylean
+        texts, st = pylean.generate(code_profiles.PROFILES, code_profiles.FILES)
+        STATUS["functions"].update(st)
+        for fname, text in texts.items():
+            changed[fname] = write_if_changed(os.path.join(outdir, fname), text)
+    except Exception as ex:  # noqa: BLE001
+        STATUS.setdefault("generator_errors", {})["Code"] = f"{type(ex).__name__}: {ex}"
     STATUS["changed"] = changed
     if status_path:
         with open(status_path, "w") as f:
